@@ -85,6 +85,7 @@ func cmdVerify(args []string) int {
 	timeout := fs.Int("t", 10, "timeout seconds")
 	noHoudini := fs.Bool("nohoudini", false, "disable invariant inference")
 	noSafety := fs.Bool("nosafety", false, "no safety obligations")
+	framesV := fs.Bool("frames", false, "write-frame sweep mode")
 	fs.Parse(args)
 	e := mustLoad()
 	cfg := &solverCfg{quickMs: 3000, fullMs: *timeout * 1000, workers: 16, seed: 1, keepDir: *keep}
@@ -118,7 +119,7 @@ func cmdVerify(args []string) int {
 			bad++
 			continue
 		}
-		res := e.verifyFunc(fn, &fnOpts{houdini: !*noHoudini, noSafety: *noSafety, spec: e.special[name]}, cfg)
+		res := e.verifyFunc(fn, &fnOpts{houdini: !*noHoudini, noSafety: *noSafety || *framesV, frames: *framesV, spec: e.special[name]}, cfg)
 		printResult(res, *verbose)
 		for _, o := range res.obligs {
 			if o.Status != "discharged" {
@@ -203,6 +204,7 @@ func cmdSweep(args []string) int {
 	verbose := fs.Bool("v", false, "list undischarged obligations")
 	file := fs.String("file", "", "restrict to functions defined in this file (suffix match)")
 	baseline := fs.String("write-baseline", "", "write the list of clean functions to this file")
+	frames := fs.Bool("frames", false, "write-frame sweep (C05/C06) instead of the safety sweep")
 	files := fs.String("files", "", "comma-separated list of source files (relative to the repo) to restrict to")
 	fs.Parse(args)
 	e := mustLoad()
@@ -247,7 +249,7 @@ func cmdSweep(args []string) int {
 	for i, k := range keys {
 		go func(i int, k string) {
 			sem <- struct{}{}
-			rows[i] = e.genFunc(e.funcs[k], &fnOpts{houdini: true, spec: e.special[k]}, cfg)
+			rows[i] = e.genFunc(e.funcs[k], &fnOpts{houdini: true, spec: e.special[k], frames: *frames, noSafety: *frames}, cfg)
 			<-sem
 			done <- i
 		}(i, k)
